@@ -11,7 +11,9 @@ import (
 	"fmt"
 	"os"
 	"os/exec"
+	"reflect"
 	"regexp"
+	"runtime"
 	"sort"
 	"strings"
 
@@ -42,6 +44,12 @@ func loadCorpus() {
 // lintCorpus refuses a corpus in which a controller not marked Self* collides with itself
 // (it would terminate the harness at its first registration).
 func lintCorpus() {
+	for _, it := range corpus {
+		on := goObjectName(it)
+		if i := strings.LastIndexByte(on, '.'); on[i+1:] != it.Name {
+			Must(fmt.Errorf("corpus: %s %s is called %q by the runtime", it.Kind, it.Name, on))
+		}
+	}
 	for _, kind := range []string{"http", "rpc"} {
 		for _, it := range corpus {
 			seen := map[string]string{}
@@ -62,7 +70,39 @@ func hidOf(it rec.Item, method string) string {
 	if it.Kind == "struct" {
 		return it.NS + ":" + it.Name + "." + method
 	}
+	if it.HID != "" {
+		return it.HID
+	}
 	return it.NS + ":" + it.Name
+}
+
+// goObjectName is what the Go runtime calls the registered object: the reflect type string of a
+// controller ("*pkg.Type"), the runtime function name of a handler function ("path/pkg.Func",
+// "path/pkg.(*T).Method", "path/pkg.(*T).Method-fm").  Taken here independently of router.go.
+func goObjectName(it rec.Item) string {
+	if it.Kind == "struct" {
+		return reflect.TypeOf(it.Obj).String()
+	}
+	return runtime.FuncForPC(reflect.ValueOf(it.Obj).Pointer()).Name()
+}
+
+// expectedNames: the property says a name is a function of (prefix, Go identifier) - the
+// exported mapper applied to the group prefix and the identifiers as written in the corpus.
+func expectedNames(kind string, op planOp) []string {
+	m := mapperOf(kind)
+	prefix := m("", "")
+	for _, g := range op.Groups {
+		prefix = m(prefix, g)
+	}
+	it := corpus[op.Item]
+	if it.Kind == "func" {
+		return []string{m(prefix, it.Name)}
+	}
+	var out []string
+	for _, meth := range it.Methods {
+		out = append(out, m(m(prefix, it.Name), meth))
+	}
+	return out
 }
 
 type planOp struct {
@@ -74,7 +114,8 @@ type planOp struct {
 }
 
 type plan struct {
-	Kind string   `json:"k"` // "http" | "rpc"
+	Kind string   `json:"k"`           // "http" | "rpc"
+	Log  string   `json:"l,omitempty"` // child only: logger level
 	Ops  []planOp `json:"o"`
 }
 
@@ -178,7 +219,7 @@ func newPeer(kind string) erpc.Peer {
 func runChild(spec string) {
 	var pl plan
 	Must(json.Unmarshal([]byte(spec), &pl))
-	erpc.SetLoggerLevel("CRITICAL")
+	erpc.SetLoggerLevel(pl.Log)
 	loadCorpus()
 	peer := newPeer(pl.Kind)
 	for _, op := range pl.Ops {
@@ -209,9 +250,9 @@ func opVal(op planOp) string {
 		for i, m := range it.Methods {
 			ms[i] = VL(VB([]byte(m)), VB([]byte(hidOf(it, m))))
 		}
-		return VL(VS("reg"), VS(it.NS), VL(gs...), VL(VS("struct"), VB([]byte(it.Name)), VL(ms...)))
+		return VL(VS("reg"), VS(it.NS), VL(gs...), VL(VS("struct"), VB([]byte(goObjectName(it))), VL(ms...)))
 	}
-	return VL(VS("reg"), VS(it.NS), VL(gs...), VL(VS("func"), VB([]byte(it.Name)), VB([]byte(hidOf(it, "")))))
+	return VL(VS("reg"), VS(it.NS), VL(gs...), VL(VS("func"), VB([]byte(goObjectName(it))), VB([]byte(hidOf(it, "")))))
 }
 
 func namesVal(per [][]string) string {
@@ -682,7 +723,7 @@ func routeBatch(cfg *RunCfg, st *Stats, w *CaseWriter, distinct DistinctSet, ind
 	defer srv.Close()
 	defer cli.Close()
 	per := make([][]string, len(pl.Ops))
-	ret := map[nsName]string{}      // (ns,name) -> hid, as returned by the implementation
+	ret := map[nsName]string{}     // (ns,name) -> hid, as returned by the implementation
 	lastUnk := map[string]string{} // ns -> uid set last (harness's own knowledge)
 	var entries []nsName
 	late := 0
@@ -709,6 +750,9 @@ func routeBatch(cfg *RunCfg, st *Stats, w *CaseWriter, distinct DistinctSet, ind
 		wantN := 1
 		if it.Kind == "struct" {
 			wantN = len(it.Methods)
+		}
+		if exp := expectedNames(kind, op); strings.Join(exp, "\x01") != strings.Join(names, "\x01") {
+			st.Fail(index, "name-not-mapper-of-identifier", fmt.Sprintf("registration of %s %s returned %q; the mapper applied to the group prefix and the declared identifier(s) gives %q", it.Kind, it.Name, names, exp), human())
 		}
 		if len(names) != wantN {
 			st.Fail(index, "names-count", fmt.Sprintf("registration of %s returned %d names for %d handlers", it.Name, len(names), wantN), human())
@@ -1031,7 +1075,12 @@ func conflictCase(cfg *RunCfg, st *Stats, w *CaseWriter, distinct DistinctSet, i
 			}
 		}
 	}
+	// the logger level must not matter: Fatalf terminates the process whether or not its
+	// CRITICAL line is printed (OFF and PRINT do not print it)
+	pl.Log = []string{"OFF", "CRITICAL", "PRINT", "DEBUG", "OFF", "ERROR"}[r.Intn(6)]
+	quiet := pl.Log == "OFF" || pl.Log == "PRINT"
 	st.Count("conflict:" + kind + ":" + class)
+	st.Count("conflict-loglevel:" + pl.Log)
 	spec, _ := json.Marshal(pl)
 	cmd := exec.Command(os.Args[0], "-child", string(spec))
 	var out bytes.Buffer
@@ -1072,6 +1121,8 @@ func conflictCase(cfg *RunCfg, st *Stats, w *CaseWriter, distinct DistinctSet, i
 	switch {
 	case code == 0 && done:
 		regObs = VL(VS("ok"), namesVal(per))
+	case code == 1 && quiet:
+		regObs = VL(VS("fatal"), namesVal(per))
 	case code == 1:
 		name := ""
 		if m := conflictRe.FindStringSubmatch(out.String()); m != nil {
@@ -1091,7 +1142,11 @@ func conflictCase(cfg *RunCfg, st *Stats, w *CaseWriter, distinct DistinctSet, i
 	} else if code != 0 || !done || len(per) != len(pl.Ops) {
 		st.Fail(index, "spurious-fatal", fmt.Sprintf("conflict-free plan did not complete (exit %d, %d of %d operations)", code, len(per), len(pl.Ops)), human)
 	}
-	w.Add(VL(VS("route"), VS(kind), planVal(pl), VL()), VL(regObs, VL()))
+	tag := "route"
+	if quiet {
+		tag = "routeq"
+	}
+	w.Add(VL(VS(tag), VS(kind), planVal(pl), VL()), VL(regObs, VL()))
 	distinct.Add("c|" + string(spec))
 	if c < 2 {
 		st.Samples = append(st.Samples, fmt.Sprintf("conflict %s class=%s exit=%d completed=%d/%d", kind, class, code, len(per), len(pl.Ops)))
